@@ -7,6 +7,7 @@ import (
 	"github.com/elk-language/elk/parser/ast"
 	"github.com/elk-language/elk/token"
 	"github.com/elk-language/elk/types"
+	"github.com/elk-language/elk/value"
 )
 
 type assumption uint8
@@ -488,9 +489,17 @@ func (c *Checker) narrowLocal(name string, localType types.Type, assume assumpti
 		return
 	}
 
-	if localCtx.env != c.currentLocalEnv() && c.mode != mutateLocalsInNarrowing {
-		local = local.createShadow()
-		c.addLocal(name, local)
+	if localCtx.env != c.currentLocalEnv() {
+		if c.mode != mutateLocalsInNarrowing {
+			local = local.createShadow()
+			c.addLocal(name, local)
+		} else if blockEnv := c.envOfEnclosingBlock(); blockEnv != nil && localCtx.env != blockEnv {
+			// the other branch never completes, so the narrowing holds for the rest
+			// of the block that contains the conditional, but the local is declared further out:
+			// it must get its declared type back when that block ends
+			local = local.createShadow()
+			blockEnv.addLocal(value.ToSymbol(name), local)
+		}
 	}
 	switch assume {
 	case assumptionTruthy:
@@ -504,6 +513,17 @@ func (c *Checker) narrowLocal(name string, localType types.Type, assume assumpti
 	case assumptionNotNil:
 		local.typ = c.ToNonNilable(localType)
 	}
+}
+
+// The environment of the block that contains the conditional expression
+// whose branch is currently being narrowed (the conditional pushes an environment
+// for its condition and one for the branch).
+func (c *Checker) envOfEnclosingBlock() *localEnvironment {
+	env := c.currentLocalEnv()
+	if env.parent == nil {
+		return nil
+	}
+	return env.parent.parent
 }
 
 func (c *Checker) ToNonNilable(typ types.Type) types.Type {
